@@ -188,6 +188,13 @@ type bpVal struct {
 }
 
 func (c *Ctx) bpEval(v ssa.Value, labels []namedConst, bp *BP) bpVal {
+	return c.bpEvalS(v, labels, bp, nil)
+}
+
+// bpEvalS: as bpEval, inside a helper whose parameters are bound by subst to
+// the values of the outermost call site.
+func (c *Ctx) bpEvalS(v ssa.Value, labels []namedConst, bp *BP, subst map[*ssa.Parameter]ssa.Value) bpVal {
+	v = translate(v, subst)
 	switch v := v.(type) {
 	case *ssa.Const:
 		if n, ok := constInt(v); ok {
@@ -200,6 +207,7 @@ func (c *Ctx) bpEval(v ssa.Value, labels []namedConst, bp *BP) bpVal {
 		if !isPower {
 			return bpVal{}
 		}
+		index = translate(index, subst)
 		if k, ok := constInt(index); ok {
 			return bpVal{vals: []int64{bp.of(k)}, ok: true}
 		}
@@ -217,7 +225,7 @@ func (c *Ctx) bpEval(v ssa.Value, labels []namedConst, bp *BP) bpVal {
 		}
 	case *ssa.BinOp:
 		if v.Op == token.ADD || v.Op == token.SUB {
-			x, y := c.bpEval(v.X, labels, bp), c.bpEval(v.Y, labels, bp)
+			x, y := c.bpEvalS(v.X, labels, bp, subst), c.bpEvalS(v.Y, labels, bp, subst)
 			if x.ok && y.ok && x.param == nil && y.param == nil {
 				var out []int64
 				for _, a := range x.vals {
@@ -507,6 +515,132 @@ func (c *Ctx) nodeTypesBuiltIn(from, to token.Pos) map[string]bool {
 	return out
 }
 
+// p3ctx: where a parse call happens, seen from the nud/led clause (or other
+// anchor function) it is reached from: helper methods between the clause and
+// the call are looked through, their parameters bound to the arguments.
+type p3ctx struct {
+	top   *ssa.Function
+	cl    *Clause
+	subst map[*ssa.Parameter]ssa.Value
+	via   string
+}
+
+func (c *Ctx) p3Contexts(in ssa.Instruction, ledSw, nudSw *EnumSwitch, depth int) []p3ctx {
+	fn := in.Parent()
+	switch fn {
+	case c.A.Led:
+		return []p3ctx{{top: fn, cl: clauseOfInstr(ledSw, in)}}
+	case c.A.Nud:
+		return []p3ctx{{top: fn, cl: clauseOfInstr(nudSw, in)}}
+	case c.A.ParseExpr, c.A.ParseDotRHS, c.A.ParseProjRHS, c.A.Parse:
+		return []p3ctx{{top: fn}}
+	}
+	if depth > 3 || fn.Signature.Recv() == nil {
+		return []p3ctx{{top: fn}}
+	}
+	// a helper: one context per call site that leads to a nud/led clause
+	var out []p3ctx
+	for _, caller := range allFuncs(c.SLib) {
+		for _, cs := range callsTo(caller, fn) {
+			for _, up := range c.p3Contexts(cs, ledSw, nudSw, depth+1) {
+				if up.cl == nil {
+					continue
+				}
+				sub := map[*ssa.Parameter]ssa.Value{}
+				for i, p := range fn.Params {
+					if i < len(cs.Call.Args) {
+						sub[p] = translate(cs.Call.Args[i], up.subst)
+					}
+				}
+				out = append(out, p3ctx{top: up.top, cl: up.cl, subst: sub, via: fn.Name() + "<-" + up.via})
+			}
+		}
+	}
+	if len(out) == 0 {
+		return []p3ctx{{top: fn}}
+	}
+	return out
+}
+
+// consumerNodeTypes: the node types of the nodes that receive v (the result
+// of a parse call) as a child: a literal that stores it into its children,
+// or a constructor helper it is passed to.
+func (c *Ctx) consumerNodeTypes(v ssa.Value, subst map[*ssa.Parameter]ssa.Value) map[string]bool {
+	out := map[string]bool{}
+	seen := map[ssa.Value]bool{}
+	var walk func(v ssa.Value)
+	walk = func(v ssa.Value) {
+		if v == nil || seen[v] || v.Referrers() == nil {
+			return
+		}
+		seen[v] = true
+		for _, rf := range *v.Referrers() {
+			switch rf := rf.(type) {
+			case *ssa.Phi:
+				walk(rf)
+			case *ssa.Extract:
+				if rf.Index == 0 {
+					walk(rf)
+				}
+			case *ssa.Store:
+				// children array slot -> the literal it belongs to
+				ia, ok := rf.Addr.(*ssa.IndexAddr)
+				if !ok || rf.Val != v {
+					continue
+				}
+				al, ok := ia.X.(*ssa.Alloc)
+				if !ok || al.Referrers() == nil {
+					continue
+				}
+				for _, r2 := range *al.Referrers() {
+					sl, ok := r2.(*ssa.Slice)
+					if !ok || sl.Referrers() == nil {
+						continue
+					}
+					for _, r3 := range *sl.Referrers() {
+						st, ok := r3.(*ssa.Store)
+						if !ok {
+							continue
+						}
+						fa, ok := st.Addr.(*ssa.FieldAddr)
+						if !ok || fa.Field != fChildren {
+							continue
+						}
+						evs, _ := c.prodEvents(fa.X)
+						for _, ev := range evs {
+							for _, kids := range ev.fields[fChildren] {
+								if kids == ssa.Value(sl) {
+									sh := c.shapeOfEvent(ev)
+									nt := sh.NodeType
+									if sh.NodeTypeParam != nil {
+										if k, ok := constInt(translate(sh.NodeTypeParam, subst)); ok {
+											nt = c.A.NTName[k]
+										}
+									}
+									out[nt] = true
+								}
+							}
+						}
+					}
+				}
+			case *ssa.Call:
+				callee := staticCallee(rf)
+				if callee == nil || callee.Pkg != c.SLib || callee.Blocks == nil || c.movesCursor(callee) {
+					continue
+				}
+				// a constructor helper: the node it builds from this argument
+				if bns, ok := c.builtNodesRec(rf, subst, 0); ok {
+					for _, bn := range bns {
+						out[bn.shape.NodeType] = true
+					}
+				}
+			}
+		}
+	}
+	walk(v)
+	return out
+}
+
 // T-P3: every call that parses a right operand / member / projection
 // right-hand side passes a binding power that absorbs exactly the tokens the
 // specification says bind tighter at that place.
@@ -546,13 +680,6 @@ func ruleP3(c *Ctx) *RuleResult {
 
 	ordinal := map[string]int{}
 	for _, fn := range allFuncs(c.SLib) {
-		var sw *EnumSwitch
-		switch fn {
-		case c.A.Led:
-			sw = ledSw
-		case c.A.Nud:
-			sw = nudSw
-		}
 		for _, b := range fn.Blocks {
 			for _, in := range b.Instrs {
 				call, ok := in.(*ssa.Call)
@@ -563,84 +690,90 @@ func ruleP3(c *Ctx) *RuleResult {
 				if callee != c.A.ParseExpr && callee != c.A.ParseDotRHS && callee != c.A.ParseProjRHS {
 					continue
 				}
-				r.Instances++
-				cl := clauseOfInstr(sw, call)
-				var labels []namedConst
-				clName := ""
-				if cl != nil {
-					labels = cl.Labels
-					clName = cl.Name()
-				}
-				base := fname(fn) + "|" + clName + "|" + callee.Name()
-				ordinal[base]++
-				key := fmt.Sprintf("%s#%d", base, ordinal[base])
-				pos := c.pos(call.Pos())
-				arg := call.Call.Args[1]
-				v := c.bpEval(arg, labels, bp)
-				if !v.ok {
-					r.undecided(key, pos, fname(fn), "binding-power argument is not a constant, a table lookup or the function's own parameter")
-					continue
-				}
-				if v.param != nil {
-					// pass-through inside parseDotRHS / parseProjectionRHS
-					if fn == c.A.ParseDotRHS || fn == c.A.ParseProjRHS {
-						r.ok(key, pos, fname(fn), "forwards its own binding-power parameter unchanged (decided at its call sites)")
-					} else {
-						r.undecided(key, pos, fname(fn), "binding power comes from a parameter of a function that is not a pass-through helper")
-					}
-					continue
-				}
-				// which set does the specification want here?
-				var want map[int64]bool
-				why := ""
-				switch {
-				case callee == c.A.ParseProjRHS:
-					var built map[string]bool
+				ctxs := c.p3Contexts(call, ledSw, nudSw, 0)
+				for _, cx := range ctxs {
+					r.Instances++
+					cl := cx.cl
+					top := cx.top
+					var labels []namedConst
+					clName := ""
 					if cl != nil {
-						built = c.nodeTypesBuiltIn(cl.Pos, cl.End)
-					} else if syn := fn.Syntax(); syn != nil {
-						built = c.nodeTypesBuiltIn(syn.Pos(), syn.End())
+						labels = cl.Labels
+						clName = cl.Name()
 					}
-					if built["ASTFilterProjection"] && !built["ASTProjection"] && !built["ASTValueProjection"] {
-						want, why = filterAbsorb, "right-hand side of a filter projection: extends over dot, bracket, call"
-					} else if built["ASTProjection"] || built["ASTValueProjection"] {
-						want, why = projAbsorb, "right-hand side of a list/slice/flatten/value projection: extends over filter, dot, bracket, call and stops at flatten, comparators, and, or, pipe"
-					} else {
-						r.undecided(key, pos, fname(fn), "cannot tell which projection this right-hand side belongs to")
+					base := fname(top) + "|" + clName + "|" + callee.Name()
+					ordinal[base]++
+					key := fmt.Sprintf("%s#%d", base, ordinal[base])
+					pos := c.pos(call.Pos())
+					arg := call.Call.Args[1]
+					v := c.bpEvalS(arg, labels, bp, cx.subst)
+					if !v.ok {
+						r.undecided(key, pos, fname(fn), "binding-power argument is not a constant, a table lookup or the function's own parameter")
 						continue
 					}
-				case fn == c.A.Led && cl != nil && len(cl.Labels) > 0 && specRank[cl.Labels[0].Name] > 0 && isBinaryClause(cl):
-					// binary operator K: the right operand absorbs what binds tighter than K
-					want = tighter(cl.Labels[0].Name)
-					for _, l := range cl.Labels[1:] {
-						if !sameSet(want, tighter(l.Name)) {
-							want = nil
+					if v.param != nil {
+						// pass-through inside parseDotRHS / parseProjectionRHS
+						if fn == c.A.ParseDotRHS || fn == c.A.ParseProjRHS {
+							r.ok(key, pos, fname(fn), "forwards its own binding-power parameter unchanged (decided at its call sites)")
+						} else {
+							r.undecided(key, pos, fname(fn), "binding power comes from a parameter of a function that is not a pass-through helper")
+						}
+						continue
+					}
+					// which set does the specification want here?
+					var want map[int64]bool
+					why := ""
+					switch {
+					case callee == c.A.ParseProjRHS:
+						built := c.consumerNodeTypes(call, cx.subst)
+						if len(built) == 0 {
+							if cl != nil && fn == top {
+								built = c.nodeTypesBuiltIn(cl.Pos, cl.End)
+							} else if syn := fn.Syntax(); syn != nil {
+								built = c.nodeTypesBuiltIn(syn.Pos(), syn.End())
+							}
+						}
+						if built["ASTFilterProjection"] && !built["ASTProjection"] && !built["ASTValueProjection"] {
+							want, why = filterAbsorb, "right-hand side of a filter projection: extends over dot, bracket, call"
+						} else if built["ASTProjection"] || built["ASTValueProjection"] {
+							want, why = projAbsorb, "right-hand side of a list/slice/flatten/value projection: extends over filter, dot, bracket, call and stops at flatten, comparators, and, or, pipe"
+						} else {
+							r.undecided(key, pos, fname(fn), "cannot tell which projection this right-hand side belongs to")
+							continue
+						}
+					case top == c.A.Led && cl != nil && len(cl.Labels) > 0 && specRank[cl.Labels[0].Name] > 0 && isBinaryClause(cl):
+						// binary operator K: the right operand absorbs what binds tighter than K
+						want = tighter(cl.Labels[0].Name)
+						for _, l := range cl.Labels[1:] {
+							if !sameSet(want, tighter(l.Name)) {
+								want = nil
+							}
+						}
+						why = "right operand of left-associative binary " + clName + ": absorbs exactly the tighter-binding tokens"
+						if want == nil {
+							r.undecided(key, pos, fname(fn), "clause mixes operators of different rank")
+							continue
+						}
+					case top == c.A.Nud && cl != nil && cl.has("tNot"):
+						want, why = tighter("tNot"), "operand of prefix !: absorbs bracket and call only"
+					default:
+						want, why = all, "a complete expression is expected here (parenthesis, member, argument, condition, expression reference, top level): every infix token continues it"
+					}
+					okAll := true
+					var got []string
+					for _, x := range v.vals {
+						a := absorbed(x)
+						got = append(got, fmt.Sprintf("rbp=%d absorbs %s", x, tokSetStr(c, a)))
+						if !sameSet(a, want) {
+							okAll = false
 						}
 					}
-					why = "right operand of left-associative binary " + clName + ": absorbs exactly the tighter-binding tokens"
-					if want == nil {
-						r.undecided(key, pos, fname(fn), "clause mixes operators of different rank")
-						continue
+					d := why + "; " + strings.Join(got, "; ") + "; wanted " + tokSetStr(c, want)
+					if okAll {
+						r.ok(key, pos, fname(fn), d)
+					} else {
+						r.viol(key, pos, fname(fn), d)
 					}
-				case fn == c.A.Nud && cl != nil && cl.has("tNot"):
-					want, why = tighter("tNot"), "operand of prefix !: absorbs bracket and call only"
-				default:
-					want, why = all, "a complete expression is expected here (parenthesis, member, argument, condition, expression reference, top level): every infix token continues it"
-				}
-				okAll := true
-				var got []string
-				for _, x := range v.vals {
-					a := absorbed(x)
-					got = append(got, fmt.Sprintf("rbp=%d absorbs %s", x, tokSetStr(c, a)))
-					if !sameSet(a, want) {
-						okAll = false
-					}
-				}
-				d := why + "; " + strings.Join(got, "; ") + "; wanted " + tokSetStr(c, want)
-				if okAll {
-					r.ok(key, pos, fname(fn), d)
-				} else {
-					r.viol(key, pos, fname(fn), d)
 				}
 			}
 		}
